@@ -134,6 +134,17 @@ def selftest(ctx, eng, scheds, events):
 
 
 def run(ctx):
+    try:
+        _run(ctx)
+    except vlib.Inconclusive as ex:
+        # a machinery problem after a property violation was observed on the real code must not hide it
+        if not ctx.violations:
+            raise
+        ctx.note("inconclusive after a violation had been found: %s" % str(ex)[:500])
+        ctx.log("(later stage inconclusive: %s)" % str(ex)[:300])
+
+
+def _run(ctx):
     t0 = time.time()
     eng = F.Engine(ctx)
     ctx.log("harness built in %.1fs (repo %s)" % (time.time() - t0, vlib.REPO))
